@@ -352,7 +352,7 @@ def deep_tail(ctx, hcmd, dcmd, tsk):
     rng, q = ctx.rng, ctx.quick
     base = [r for r in conc_runs(ctx, tsk)]
     rng.shuffle(base)
-    base = base[:100 if q else 1500]
+    base = base[:100 if q else 500]
     jobs0 = []
     for r in base:
         progs = r["conf"][0].split()[4:]
@@ -374,7 +374,7 @@ def deep_tail(ctx, hcmd, dcmd, tsk):
 
     def explore(job):
         r, pre = job
-        g = vlib.explore_schedules(hcmd, r["conf"], 2, max_runs=200 if q else 1500, start_prefix=pre, workers=1)
+        g = vlib.explore_schedules(hcmd, r["conf"], 2, max_runs=200 if q else 500, start_prefix=pre, workers=1)
         out = []
         for s, _ in g:
             x = dict(r)
@@ -388,7 +388,7 @@ def deep_tail(ctx, hcmd, dcmd, tsk):
             stats["tail_schedules"] += len(out)
             stats["exhausted"] += bool(exh)
     ctx.cov["deep_tail"] = stats
-    vlib.conc_correspondence(ctx, hcmd, dcmd, runs, judge=judge, label="tieC_deep_tail", escalate=False)
+    vlib.conc_correspondence_batched(ctx, hcmd, dcmd, runs, judge=judge, label="tieC_deep_tail", escalate=False)
 
 
 # the interleavings that break the original lock-free allocation (both reproduce on the real code
